@@ -29,7 +29,7 @@ func deliveredBody(x *Exchange) (ok bool, at time.Time) {
 		return false, time.Time{}
 	}
 	switch x.Fault.Kind {
-	case FNone, FRedirect, FBodyStall:
+	case FNone, FRedirect, FBodyStall, FCloseErr:
 	case FLyingCL:
 		// the whole body is sent and THEN the connection drops: a reader that
 		// stops exactly at the last byte holds the complete answer and never
